@@ -1,7 +1,8 @@
 import Tengo.Props.C05
 import Tengo.Props.C05VM
 import Tengo.Props.C05Acyclic
+import Tengo.Props.C05Faults
 /-! C05: the protocol theorems over `Model/Conc` (`C05`) and their instantiation with the behaviour of a
 configuration of the whole-VM model, whose outcome classes are derived from `VM.exec` (`C05VM`), and
-`no_fatal_acyclic`: no fatal class on values/stacks of bounded nesting depth (`C05Acyclic`) — as one module for the
-checker. -/
+`no_fatal_acyclic`: no fatal class on values/stacks of bounded nesting depth (`C05Acyclic`), and the run-time fault-site inventory with
+its cover and classification (`C05Faults`) — as one module for the checker. -/
